@@ -269,7 +269,8 @@ func c16CodecGen(r *vh.Rand, tier string, n int, emit func(any)) {
 			}
 		})})
 	}
-	strLens := []int{255, 256, 257, 1000}
+	// 32767/32768 and 65535: the signed and unsigned 16-bit boundaries of the length prefix (also in quick)
+	strLens := []int{255, 256, 257, 1000, 32768, 65535}
 	if thorough {
 		strLens = append(strLens, 65534, 65535, 65536, 65537, 70000)
 	}
